@@ -25,6 +25,7 @@ BOUNDS = {'quick': dict(NF=3, ND=4), 'thorough': dict(NF=4, ND=5)}
 RULESETS = ['defaults', 'unicode-xml']
 PROTS = ['braces', 'braces-all', 'braces-almost-all', 'braces-after-macro']
 UNKS = ['keep', 'replace', 'ignore', 'fail', 'unihex']
+ODD = ['\ud835', '\udc9c', '\udbff', 'a', '\\', '\u00e9']
 SPECIAL = ['\u0001', '́', '\U0001d400', '͸', 'é', '€', '\u007f']
 
 _ENC = {}
@@ -104,11 +105,24 @@ def check(s, rs, prot, unk, acc, sub):
         bad = sorted(kinds & {'comment', 'environment', 'math'})
         if bad:
             acc.violation(ID, sub, case, dict(kind='active-character-not-neutralised', node=bad, rules=rs), observed=repr(out))
+        else:
+            # the remaining active characters (# & _ ^ ~) must not survive as themselves either: not as a specials node and
+            # not inside ordinary characters
+            for n in canon.iter_nodes(res[1]):
+                k = canon.kind_of(n)
+                bare = None
+                if k == 'specials' and n.specials_chars in ('~', '&'):
+                    bare = n.specials_chars
+                elif k == 'chars' and any(c in n.chars for c in '#&_^~'):
+                    bare = next(c for c in n.chars if c in '#&_^~')
+                if bare is not None:
+                    acc.violation(ID, sub, case, dict(kind='active-character-not-neutralised', node=['bare ' + bare], rules=rs), observed=repr(out))
+                    break
 
 
 def plan(tier):
     b = BOUNDS[tier]
-    shards = [('full', i) for i in range(len(ACTIVE))] + [('deep', i, j) for i in range(len(ACTIVE)) for j in range(2)]
+    shards = [('full', i) for i in range(len(ACTIVE))] + [('deep', i, j) for i in range(len(ACTIVE)) for j in range(2)] + [('odd', 0)]
     shards += [('table', rs, k) for rs in RULESETS for k in range(8)]
     return dict(
         shards=shards, bounds=dict(b, active=ACTIVE, special=[hex(ord(c)) for c in SPECIAL]),
@@ -143,6 +157,15 @@ def run_shard(shard, tier, acc):
         k = b['ND'] - 1
         for w in itertools.product(ACTIVE, repeat=k):
             check(first + ''.join(w), rs, 'braces', 'keep', acc, 'deep')
+    elif shard[0] == 'odd':
+        # ill-formed but legal Python strings: lone surrogates, also a high+low pair whose code point has a rule
+        for k in range(0, 4):
+            for w in itertools.product(ODD, repeat=k):
+                s = ''.join(w)
+                for rs in RULESETS:
+                    for prot in PROTS:
+                        for unk in UNKS:
+                            check(s, rs, prot, unk, acc, 'odd')
     else:
         rs, k = shard[1], shard[2]
         cps = sorted(table(rs).keys())[k::8]
